@@ -46,6 +46,9 @@ MISSED_FIRST = {
  "C18c-2": "needs a transform slice shared between pipelines and passed with '...'; C18's generator tasks now share one (plus Concat on it), and it is part of the shared-input hash",
  "C18c-3": "needs a shared stop list that is not in increasing offset order; added to C18's shared inputs",
  "C16c-3": "only shows when the scaled graphic is expressed through the library's Encoder (+64/+128 land on the boundary of the coordinate forms; C01 and C07 caught it); a third of C16's graphics are now exact in every number and half of their offset and scaled renderings go through Encoder and Decode",
+ "C16dD-2": "needs an Alpha image, an opaque flat colour and a target rectangle at (0,0) that is narrower than the image; C16's offset relation never used a zero offset, now an eighth of the cases do (and another quarter a zero x or y)",
+ "C01dD-3": "needs PaletteIndexColor/CRegColor called with an index >= 64 (C09 caught it); the generators now pass any uint8 to the constructors, which reduce it modulo 64",
+ "C20dE-1": "needs a Generator whose transform is reset by SetTransform() with no arguments; C20 now resets and replaces transforms on a Generator that already had one",
  "C20-2": "SetTransform was called once with literals; C20 now configures the generator twice from a caller-held slice and checks that the slice is unchanged",
 }
 
